@@ -188,4 +188,36 @@ def fuel (progs : List Prog) : Nat :=
 /-- the whole request: run the machine to completion -/
 def exec (cfg : Cfg) (progs : List Prog) : St := run cfg progs (fuel progs) (start cfg progs)
 
+/-! ### the context pool, as far as the chain is concerned (`router/pool.go`, `router/serve.go`) -/
+
+/-- the chain-relevant state a pooled `Context` carries from one request to the next: every serve
+    path assigns `handlers` and `index = -1` when it takes a context, none assigns `aborted` — that
+    is whatever the last `reset()` left -/
+structure PCtx where
+  aborted : Bool
+  deriving Repr, DecidableEq, Inhabited
+
+/-- `reset()` -/
+def PCtx.reset : PCtx := { aborted := false }
+
+/-- one request served on the pooled context `c` -/
+def serveOn (cfg : Cfg) (progs : List Prog) (c : PCtx) : St :=
+  run cfg progs (fuel progs) (callNext cfg progs { init with aborted := c.aborted })
+
+/-- After the request. The tree path calls `releaseGlobalContext(c)` (= `reset()` then `Put`) only
+    after `c.Next()` returned, so a context whose request panicked out of `ServeHTTP` is dropped;
+    the compiled-static and versioned paths `defer` it (`deferred = true`), so it is reset and put
+    back even then. Either way only reset contexts enter the pool. -/
+def release (deferred : Bool) (pool : List PCtx) (s : St) : List PCtx :=
+  if s.escaped.isSome && !deferred then pool else PCtx.reset :: pool
+
+/-- a sequence of requests `(chain, serve path defers its release)` against one pool; an empty
+    pool makes a new context (`sync.Pool.New`), which `NewPooledContext`-style code resets too -/
+def serveAll (cfg : Cfg) : List PCtx → List (List Prog × Bool) → List St
+  | _, [] => []
+  | pool, (p, d) :: ps =>
+    let c := pool.headD PCtx.reset
+    let s := serveOn cfg p c
+    s :: serveAll cfg (release d pool.tail s) ps
+
 end Rivaas.Chain
